@@ -110,6 +110,9 @@ func genC16Case(t *rapid.T) *StructCase {
 	}
 	c.CallFns = callFns
 	c.pickEntry(rapid.IntRange(0, 7).Draw(t, "entry"))
+	if len(c.PerType) > 0 {
+		c.Token = rapid.SampledFrom([]string{"", "", "", "nilptr", "ptrptr", "value"}).Draw(t, "typeToken")
+	}
 	if rapid.IntRange(0, 7).Draw(t, "lateReg") == 0 {
 		// a global function registered while the call is being set up (for the builder entry: after
 		// the validator object exists): the name resolves to it when the validation runs
